@@ -20,12 +20,14 @@ import (
 type violations struct {
 	mu   sync.Mutex
 	list []string
+	// prefix names the pool in an engine of several pools ("" in an engine of one pool)
+	prefix string
 }
 
 func (v *violations) add(format string, a ...any) {
 	v.mu.Lock()
 	if len(v.list) < 20 {
-		v.list = append(v.list, fmt.Sprintf(format, a...))
+		v.list = append(v.list, v.prefix+fmt.Sprintf(format, a...))
 	}
 	v.mu.Unlock()
 }
@@ -52,6 +54,20 @@ type gunProbes struct {
 	maxActive   atomic.Int32
 	overlapping atomic.Int64 // shots that began while another instance was shooting
 	shots       atomic.Int64
+
+	// engines of several pools: the id of this pool, the probes of the other pools, shots of this pool that began while a
+	// gun of another pool was shooting, and when the gun factory of this pool was entered first / left last
+	poolID              string
+	others              []*gunProbes
+	acrossPools         atomic.Int64
+	firstCtor, lastCtor time.Time
+}
+
+// ctorSpan: the time from the first call of the pool's gun factory (the warm-up gun) to the return of the last one.
+func (p *gunProbes) ctorSpan() (from, to time.Time, ok bool) {
+	p.mu.Lock()
+	defer p.mu.Unlock()
+	return p.firstCtor, p.lastCtor, !p.firstCtor.IsZero()
 }
 
 type probeGun struct {
@@ -73,6 +89,7 @@ func newGunProbes(v *violations) *gunProbes {
 
 func (p *gunProbes) wrapFactory(f func() (core.Gun, error)) func() (core.Gun, error) {
 	return func() (core.Gun, error) {
+		began := time.Now()
 		g, err := f()
 		if err != nil || g == nil {
 			return g, err
@@ -80,6 +97,10 @@ func (p *gunProbes) wrapFactory(f func() (core.Gun, error)) func() (core.Gun, er
 		pg := &probeGun{p: p, inner: g}
 		pg.instanceID.Store(-1)
 		p.mu.Lock()
+		if p.firstCtor.IsZero() {
+			p.firstCtor = began
+		}
+		p.lastCtor = time.Now()
 		pg.idx = len(p.guns)
 		p.guns = append(p.guns, pg)
 		if rv := reflect.ValueOf(g); rv.Kind() == reflect.Ptr {
@@ -95,6 +116,9 @@ func (g *probeGun) Bind(aggr core.Aggregator, deps core.GunDeps) error {
 		g.p.viol.add("gun object #%d was bound %d times (second time to instance %d): instances share one gun", g.idx, n, deps.InstanceID)
 	}
 	g.instanceID.Store(int64(deps.InstanceID))
+	if g.p.poolID != "" && deps.PoolID != g.p.poolID {
+		g.p.viol.add("gun object #%d, made by the gun factory of pool %q, was bound to instance %d of pool %q: an instance got the gun of another pool", g.idx, g.p.poolID, deps.InstanceID, deps.PoolID)
+	}
 	return g.inner.Bind(aggr, deps)
 }
 
@@ -110,6 +134,13 @@ func (g *probeGun) Shoot(a core.Ammo) {
 	n := g.p.active.Add(1)
 	if n > 1 {
 		g.p.overlapping.Add(1)
+	}
+	for _, o := range g.p.others {
+		// (the engine's request / response counters are one pair of atomics for all pools: no new ordering here either)
+		if o.active.Load() > 0 {
+			g.p.acrossPools.Add(1)
+			break
+		}
 	}
 	for {
 		m := g.p.maxActive.Load()
@@ -152,13 +183,16 @@ type gunReport struct {
 	MaxActive    int32 `json:"max_concurrent_shots"`
 	Overlapping  int64 `json:"shots_begun_while_another_was_in_progress"`
 	GunsShooting int   `json:"guns_that_shot"`
+	AcrossPools  int64 `json:"shots_begun_while_a_gun_of_another_pool_was_shooting,omitempty"`
 }
 
-// verify judges the identity part after the run (instancesStarted = engine metric InstanceStart).
+// verify judges the identity part after the run (instancesStarted = engine metric InstanceStart; < 0 in an engine of
+// several pools, whose metric counts the instances of all pools: runRound judges the sum).
 func (p *gunProbes) verify(instancesStarted int64) gunReport {
 	p.mu.Lock()
 	defer p.mu.Unlock()
-	rep := gunReport{FactoryCalls: len(p.guns), Shots: p.shots.Load(), MaxActive: p.maxActive.Load(), Overlapping: p.overlapping.Load()}
+	rep := gunReport{FactoryCalls: len(p.guns), Shots: p.shots.Load(), MaxActive: p.maxActive.Load(), Overlapping: p.overlapping.Load(),
+		AcrossPools: p.acrossPools.Load()}
 	ids := map[int64]int{}
 	for _, g := range p.guns {
 		if g.binds.Load() > 0 {
@@ -180,7 +214,7 @@ func (p *gunProbes) verify(instancesStarted int64) gunReport {
 			p.viol.add("the gun factory returned the same gun object (%#x) %d times: instances do not own their gun", ptr, n)
 		}
 	}
-	if int64(rep.Bound) != instancesStarted {
+	if instancesStarted >= 0 && int64(rep.Bound) != instancesStarted {
 		p.viol.add("%d instances were started but %d gun objects were bound: not one gun per instance", instancesStarted, rep.Bound)
 	}
 	// one extra gun is built by the pool for WarmUp only
